@@ -71,24 +71,27 @@ def from_node(node: Union[NodeTemplate, EdgeTemplate], return_dict: dict, base: 
     """Reformat operator structure into a dictionary that can be saved as YAML template.
     """
 
-    new_dict = {'base': base, 'operators': []}
+    new_dict = {'base': base, 'operators': {}}
 
-    # collect operator definitions
+    # collect operator definitions. Node-specific values are stored with the node, not with the (shared) operator.
     for op, updates in node.operators.items():
-        opkey = from_operator(op=op, updates=updates, return_dict=return_dict)
-        new_dict['operators'].append(opkey)
+        opkey = from_operator(op=op, return_dict=return_dict)
+        new_dict['operators'][opkey] = dict(updates) if updates else {}
+
+    # nodes without node-specific values keep the compact list form
+    if not any(new_dict['operators'].values()):
+        new_dict['operators'] = list(new_dict['operators'])
 
     # add node information to the return dictionary
     return add_to_dict(node, new_dict, return_dict)
 
 
-def from_operator(op: OperatorTemplate, updates: dict, return_dict: dict, base: str = 'OperatorTemplate') -> str:
+def from_operator(op: OperatorTemplate, return_dict: dict, base: str = 'OperatorTemplate') -> str:
     """Reformat operator template into a dictionary that can be saved as YAML template.
     """
 
-    # collect operator attributes
-    new_dict = {'base': base, 'equations': op.equations, 'variables': op.variables}
-    new_dict['variables'].update(updates)
+    # collect operator attributes (copies: the dump must not alias or alter the template)
+    new_dict = {'base': base, 'equations': list(op.equations), 'variables': dict(op.variables)}
 
     # add operator definition to the return dictionary
     return add_to_dict(op, new_dict, return_dict)
@@ -104,9 +107,12 @@ def from_edge(edge: EdgeTemplate, return_dict: dict, base: str = 'EdgeTemplate')
 
 def add_to_dict(template, template_dict: dict, full_dict: dict):
 
+    # templates that share a name but differ in content get the labels name_num1, name_num2, ...;
+    # an identical definition that was stored before is re-used
     temp_key = template.name
-    existing_labels = {key: 0 for key in full_dict.keys()}
-    if temp_key in full_dict and full_dict[temp_key] != template_dict:
-        temp_key, _ = get_unique_label(temp_key, existing_labels)
+    n = 0
+    while temp_key in full_dict and full_dict[temp_key] != template_dict:
+        n += 1
+        temp_key = f"{template.name}_num{n}"
     full_dict[temp_key] = template_dict
     return temp_key
